@@ -597,12 +597,19 @@ func genData(emit emitFn) {
 		{{"v1", "0x01, 0x02"}, {"v2", "0x07"}},
 		{{"v1", "0x01, 0x02, 0x03"}, {"v2", "0x07"}, {"v3", "0xff, 0x10"}},
 		{{"v1", "7"}, {"v2", "0b101, 0d9"}},
+		// the repeat form N:db (the whole list N times), with one and with several distinct bytes, followed by more data
+		{{"v1", "0x11, 0x22", "2"}, {"v2", "0x07"}},
+		{{"v1", "0x05", "4"}, {"v2", "0x01, 0x02, 0x03", "3"}, {"v3", "0x44"}},
 	}
 	for li, lay := range layouts {
 		var dl []string
 		var names []string
 		for _, v := range lay {
-			dl = append(dl, v[0]+" db "+v[1])
+			if len(v) > 2 {
+				dl = append(dl, v[0]+" "+v[2]+":db "+v[1])
+			} else {
+				dl = append(dl, v[0]+" db "+v[1])
+			}
 			names = append(names, v[0])
 		}
 		for pad := 0; pad <= 2; pad++ {
@@ -831,7 +838,7 @@ func GenerateAll(thorough bool, emit emitFn) map[string]any {
 	bounds["sync_two_cp"] = "3 producers x 3 consumers over a handshaked (iomode:sync) link x cpdef order x section order x r{8,16}; compared as value sequences (timing independent)"
 	bounds["literals"] = "10 values x 6-8 notations (dec,0x,0X,0x0,0b,0b0,0d,0u) x {rset,mov} x r{8,16,32} x bm-output swap; sync mov forms (static oracle)"
 	bounds["macros"] = "8 macro definitions (0..2 args: reg/label/literal args) x nesting {none,first,last} x 0..2 uses at every gap pair x label-before-call x defined before/after; 1 macro shared by 2 CPs"
-	bounds["data"] = "4 romdata layouts x code padding 0..2 x {mov,rset} rom:symbol x every symbol pair x section order"
+	bounds["data"] = "6 romdata layouts (db lists, N:db repeats) x code padding 0..2 x {mov,rset} rom:symbol x every symbol pair x section order"
 	bounds["two_cp"] = "4 producers x 4 consumers x cpdef order x section order x ioatt endpoint order x bm output index [x r8,16,32 thorough]"
 	bounds["ticks"] = Ticks
 	return bounds
